@@ -53,6 +53,13 @@ def _r(src, args, ret):
 
 
 REGRESSION = [
+    # the loop variable keeps its last value after the loop (name bound before the loop / a parameter / over a list)
+    _r("def f(a: Qint[3]) -> Qint[3]:\n    i = 0\n    for i in range(3):\n        a = a ^ i\n    return a + i\n", [["a", "Qint3"]], "Qint3"),
+    _r("def f(a: Qint[3], i: Qint[2]) -> Qint[3]:\n    for i in range(1, 4):\n        a = a + i\n    return a ^ i\n", [["a", "Qint3"], ["i", "Qint2"]], "Qint3"),
+    _r("def f(a: Qlist[Qint[2], 3]) -> Qint[2]:\n    x = 0\n    for x in a:\n        x = x\n    return x\n", [["a", ["Qint2"] * 3]], "Qint2"),
+    _r("def f(a: Qlist[Qint[2], 3], x: Qint[2]) -> Qint[2]:\n    s = x\n    for x in a:\n        s = s ^ x\n    return s + x\n", [["a", ["Qint2"] * 3], ["x", "Qint2"]], "Qint2"),
+    _r("def f(a: Qint[2], b: bool) -> Qint[2]:\n    k = 3\n    for k in range(2):\n        a = a + 1 if b else a\n    return a + k\n", [["a", "Qint2"], ["b", "bool"]], "Qint2"),
+    _r("def f(a: Qint[4]) -> Qint[4]:\n    j = 1\n    for i in range(2):\n        for j in range(0, 6, 2):\n            a = a ^ j\n    return a + j\n", [["a", "Qint4"]], "Qint4"),
     # local variables whose names start like the return symbol, reassigned parameters after them
     _r("def f(a: bool, b: bool, c: bool) -> bool:\n    _retained = a and b\n    a = not a\n    return (_retained ^ a) or c\n", [["a", "bool"], ["b", "bool"], ["c", "bool"]], "bool"),
     _r("def f(a: Qint[2], b: Qint[2]) -> Qint[2]:\n    _ret2 = a + b\n    a = a ^ 1\n    b = _ret2 + a\n    return _ret2 ^ b\n", [["a", "Qint2"], ["b", "Qint2"]], "Qint2"),
